@@ -103,6 +103,7 @@ FIXED = {
     'projectidexcl': '9a73353',
     'accmissing': '6085e72',
     'addfieldsorder': 'eb8f57c',
+    'limitdouble': '391498a',
 }
 
 
